@@ -229,9 +229,10 @@ class MergeContracts(Contract):
     def inputs(self, g):
         cbm, a, b = gen_world(g)
         cbm2, a2, b2 = snapshot((cbm, a, b))
-        return [cbm, a, b, cbm2, a2, b2], {}
+        cbm3, a3, b3 = snapshot((cbm, a, b))
+        return [cbm, a, b, cbm2, a2, b2, cbm3, a3, b3], {}
 
-    def body(self, h, cbm, a, b, cbm2, a2, b2):
+    def body(self, h, cbm, a, b, cbm2, a2, b2, cbm3, a3, b3):
         def go():
             srcA0, srcB0 = snap(h, a), snap(h, b)
             h.call(CBMOverNX.merge_adm, cbm, adm=a)
@@ -252,8 +253,23 @@ class MergeContracts(Contract):
             remerged = snap(h, cbm)
             h.call(CBMOverNX.rollback, cbm, graph_id=sid)
             rolled = snap(h, cbm)
-            return dict(srcA0=srcA0, srcB0=srcB0, srcA1=srcA1, srcB1=srcB1, afterA=afterA, afterAB=afterAB, afterBA=afterBA,
-                        unmerged=unmerged, rolled=rolled, remerged=remerged)
+            # the history goes on after a rollback: merge B once more
+            h.call(CBMOverNX.merge_adm, cbm, adm=b)
+            after_rollback_merge = snap(h, cbm)
+            srcA2, srcB2 = snap(h, a), snap(h, b)
+            # third identical world, the short history: merge A, snapshot, merge B, roll back, merge B, snapshot
+            h.call(CBMOverNX.merge_adm, cbm3, adm=a3)
+            sid3 = h.call(CBMOverNX.snapshot, cbm3)
+            h.call(CBMOverNX.merge_adm, cbm3, adm=b3)
+            h.call(CBMOverNX.rollback, cbm3, graph_id=sid3)
+            h.call(CBMOverNX.merge_adm, cbm3, adm=b3)
+            short = snap(h, cbm3)
+            h.call(CBMOverNX.snapshot, cbm3)
+            short_after_snapshot = snap(h, cbm3)
+            srcA3, srcB3 = snap(h, a3), snap(h, b3)
+            return dict(short=short, short_after_snapshot=short_after_snapshot, srcA3=srcA3, srcB3=srcB3,srcA0=srcA0, srcB0=srcB0, srcA1=srcA1, srcB1=srcB1, afterA=afterA, afterAB=afterAB, afterBA=afterBA,
+                        unmerged=unmerged, rolled=rolled, remerged=remerged, after_rollback_merge=after_rollback_merge,
+                        srcA2=srcA2, srcB2=srcB2)
         return run(h, go)
 
     @staticmethod
@@ -288,6 +304,11 @@ class MergeContracts(Contract):
         'rollback.restores_snapshot': lambda pre, post: returned(post) and views_same(post.result['afterA'], post.result['rolled']),
         'remerge.after_unmerge_gives_the_union_again': lambda pre, post: returned(post) and views_same(
             post.result['afterAB'], post.result['remerged']),
+        'rollback.then_merge_gives_the_union_and_leaves_the_sources': lambda pre, post: returned(post) and And(
+            views_same(post.result['afterAB'], post.result['after_rollback_merge']),
+            views_same(post.result['srcA0'], post.result['srcA2']), views_same(post.result['srcB0'], post.result['srcB2']),
+            views_same(post.result['afterAB'], post.result['short']), views_same(post.result['afterAB'], post.result['short_after_snapshot']),
+            views_same(post.result['srcA0'], post.result['srcA3']), views_same(post.result['srcB0'], post.result['srcB3'])),
     }
 
 
@@ -298,7 +319,8 @@ class TwoSharedElements(MergeContracts):
     def inputs(self, g):
         cbm, a, b = gen_world2(g)
         cbm2, a2, b2 = snapshot((cbm, a, b))
-        return [cbm, a, b, cbm2, a2, b2], {}
+        cbm3, a3, b3 = snapshot((cbm, a, b))
+        return [cbm, a, b, cbm2, a2, b2, cbm3, a3, b3], {}
 
     @staticmethod
     def _union2(pre, post):
@@ -330,6 +352,8 @@ class TwoSharedElements(MergeContracts):
         'unmerge.inverse_of_merge_or_known_defect_KF-C14-1': lambda pre, post: TwoSharedElements._unmerge_except_known(pre, post),
         'rollback.restores_snapshot': MergeContracts.ensures['rollback.restores_snapshot'],
         'remerge.after_unmerge_gives_the_union_again': MergeContracts.ensures['remerge.after_unmerge_gives_the_union_again'],
+        'rollback.then_merge_gives_the_union_and_leaves_the_sources':
+            MergeContracts.ensures['rollback.then_merge_gives_the_union_and_leaves_the_sources'],
     }
 
 
